@@ -304,6 +304,9 @@ def remove_bn_inplace(lin: nn.Module, bn: nn.Module, fold: bool):
         raise AttributeError("BatchNorm folding requires track_running_stats = True")
     with torch.no_grad():
         lin.bn = copy.deepcopy(bn)
+        # a searchable layer placed by the user may have been built with a different flag: its forward
+        # and export must agree with the way the BatchNorm is actually absorbed here
+        lin.fold_bn = fold
         if fold:
             conv_w = lin.weight
             conv_b = lin.bias
